@@ -8,6 +8,7 @@ variant) and logs each space's SideMetadataContext, its address range, the core 
 declaration and the reservation; Trace_MetaConfig.tla recomputes all offsets with the rules and
 decides disjointness / containment for the logged active set and for every other VM declaration."""
 import os
+import re
 
 import vf
 from props import heapcommon as hc
@@ -87,6 +88,7 @@ def run(ctx):
         groups += [(("placements",), tuple(range(1, 8))), (("object_pinning", "placements"), tuple(range(1, 8)))]
     total_rows, configs = 0, 0
     hyp = 0
+    ready = []
     for fs, placements in groups:
         runs = layout_runs(fs, placements)
         try:
@@ -100,31 +102,40 @@ def run(ctx):
         with open(group, "w") as o:
             for _r, out, _raw in items:
                 o.write(open(out).read())
+        ready.append((fs, group))
+
+    def validate(job):
+        fs, group = job
+        label = "+".join(fs) or "default"
         rows = sum(1 for _ in open(group))
-        res = ctx.tlc_trace(TRACE_SPEC[0], TRACE_SPEC[1], group, spec_dir=sd, keyfn=keyfn,
-                            name="t_layouts_" + ("+".join(fs) or "default"), ntraces=rows,
-                            what="side-metadata layout of a configuration rejected by MetaConfig "
-                                 "(build %s)" % ("+".join(fs) or "default"), timeout=1500)
-        log = open(os.path.join(ctx.work, "tlc_t_layouts_%s.log" % ("+".join(fs) or "default"))).read()
-        import re
+        ctx.tlc_trace(TRACE_SPEC[0], TRACE_SPEC[1], group, spec_dir=sd, keyfn=keyfn,
+                      name="t_layouts_" + label, ntraces=rows,
+                      what="side-metadata layout of a configuration rejected by MetaConfig "
+                           "(build %s)" % label, timeout=1800)
+        log = open(os.path.join(ctx.work, "tlc_t_layouts_%s.log" % label)).read()
         sc.report_extra_tags(ctx, log, group, keyfn, "side-metadata layout of a configuration rejected "
-                             "by MetaConfig (build %s)" % ("+".join(fs) or "default"))
-        hyp += sum(int(n) for n in re.findall(r"HYP_DECLS l=\d+ n=(\d+)", log))
-        total_rows += rows
-        configs += rows
-        if not ctx.cov["samples"]:
-            ctx.sample(open(group).readline()[:1200])
-        if ctx.tier != "quick" and not fs:
-            def shift_table(lines):    # the mark-bit table of every space moved into its neighbour
-                import json as _j
-                r = _j.loads(next(x for x in lines if '"plan":"Immix"' in x))
-                for s_ in r["spaces"]:
-                    for x in s_["l"]:
-                        if x["n"] == "VMLocalMarkBitSpec":
-                            x["oh"] -= 1024
-                return [_j.dumps(r, separators=(",", ":"))]
-            sc.binding_demo(ctx, sd, TRACE_SPEC[0], TRACE_SPEC[1], group, "shifted_table",
-                            shift_table, "C24:range-overlap")
+                             "by MetaConfig (build %s)" % label)
+        return rows, sum(int(n) for n in re.findall(r"HYP_DECLS l=\d+ n=(\d+)", log))
+
+    import concurrent.futures as cf
+    with cf.ThreadPoolExecutor(4) as ex:
+        for rows, h in ex.map(validate, ready):
+            total_rows += rows
+            configs += rows
+            hyp += h
+    if ready:
+        ctx.sample(open(ready[0][1]).readline()[:1200])
+    if ctx.tier != "quick" and ready and not ready[0][0]:
+        def shift_table(lines):    # the mark-bit table of every space moved into its neighbour
+            import json as _j
+            r = _j.loads(next(x for x in lines if '"plan":"Immix"' in x))
+            for s_ in r["spaces"]:
+                for x in s_["l"]:
+                    if x["n"] == "VMLocalMarkBitSpec":
+                        x["oh"] -= 1024
+            return [_j.dumps(r, separators=(",", ":"))]
+        sc.binding_demo(ctx, sd, TRACE_SPEC[0], TRACE_SPEC[1], ready[0][1], "shifted_table",
+                        shift_table, "C24:range-overlap")
     ctx.cov["configurations"] = configs
     ctx.cov["hypothetical_declarations_checked"] = hyp
     ctx.cov["builds"] = ["+".join(fs) or "default" for fs, _ in groups if "+".join(fs) not in omitted]
